@@ -229,6 +229,10 @@ def run_check(prop, tier, base, mod, workers=None, n_runs=None, deadline=None):
                 else:
                     errors.append('violation of run %d did not replay (exit %s / %s): %s'
                                   % (i, pr.returncode, pr2.returncode, (pr2.stdout + pr2.stderr)[-800:]))
+        for k_, v_ in sorted(agg.items()):
+            if k_.startswith('observation_not_') and v_:
+                print('OBSERVATION (not a verdict): %s in %d of %d observation runs'
+                      % (k_[len('observation_'):], v_, agg.get('observation_runs_' + k_.split('_on_')[-1], 0)))
         for what, n in sorted(known_hits.items()):
             print('KNOWN-FINDING: property=%s %s (seen %d times)' % (prop, what, n))
         wall = _walltime.monotonic() - t0
